@@ -123,6 +123,53 @@ theorem append_ok (p : Profile) (hW : WideEnough p) (x : P.State) (data : List (
         rw [setTo_ok p _ _ hk' hr]
         rfl
 
+/-- the shared `append` skeleton never panics for ANY state type and packet update (hence for the SSE4.1, AVX2,
+NEON and Wasm instantiations, whose updates are panic-free intrinsic code), and computes `appendG` -/
+theorem appendG_ok {S : Type} (p : Profile) (hW : WideEnough p) (upd : S → List (BitVec 8) → S) (x : S × Pkt)
+    (data : List (BitVec 8)) (hx : x.2.Inv) :
+    PP.appendG p upd x data = .ok (appendG upd x data) := by
+  have hb := hx.2
+  simp only [PP.appendG, appendG]
+  by_cases h0 : x.2.isEmpty = true
+  · simp only [h0, ↓reduceIte, bind, Except.bind]
+    have hr := absorb_rem_lt upd data.length x.1 data (Nat.le_refl _)
+    rw [setTo_ok p _ _ hb hr]
+    rfl
+  · have h0' : x.2.isEmpty = false := by simpa using h0
+    simp only [h0', Bool.false_eq_true, ↓reduceIte, bind, Except.bind]
+    rw [fill_ok p hW _ _ hx]
+    simp only []
+    cases hf : x.2.fill data with
+    | mk k' o =>
+      cases o with
+      | none => simp [pure, Except.pure]
+      | some tail =>
+        simp only [Pkt.inner]
+        have hr := absorb_rem_lt upd tail.length (upd x.1 k'.buf) tail (Nat.le_refl _)
+        have hk' : k'.buf.length = 32 := by
+          have := hf
+          simp only [Pkt.fill] at this
+          split at this
+          · simp at this
+          · simp only [Prod.mk.injEq, Option.some.injEq] at this
+            rw [← this.1]; simp [hb]; have := hx.1; omega
+        rw [setTo_ok p _ _ hk' hr]
+        rfl
+
+/-- instances: `append` of the four SIMD back ends (their models ARE `appendG` at their own `updPacket`) -/
+theorem sse_append_ok (p : Profile) (hW : WideEnough p) (x : Sse.State) (d : List (BitVec 8)) (hx : x.buffer.Inv) :
+    PP.appendG p Sse.updPacket (x.r, x.buffer) d = .ok ((Sse.append x d).r, (Sse.append x d).buffer) :=
+  appendG_ok p hW _ _ d hx
+theorem avx_append_ok (p : Profile) (hW : WideEnough p) (x : Avx.State) (d : List (BitVec 8)) (hx : x.buffer.Inv) :
+    PP.appendG p Avx.updPacket (x.r, x.buffer) d = .ok ((Avx.append x d).r, (Avx.append x d).buffer) :=
+  appendG_ok p hW _ _ d hx
+theorem neon_append_ok (p : Profile) (hW : WideEnough p) (x : NeonB.State) (d : List (BitVec 8)) (hx : x.buffer.Inv) :
+    PP.appendG p NeonB.updPacket (x.r, x.buffer) d = .ok ((NeonB.append x d).r, (NeonB.append x d).buffer) :=
+  appendG_ok p hW _ _ d hx
+theorem wasm_append_ok (p : Profile) (hW : WideEnough p) (x : WasmB.State) (d : List (BitVec 8)) (hx : x.buffer.Inv) :
+    PP.appendG p WasmB.updPacket (x.r, x.buffer) d = .ok ((WasmB.append x d).r, (WasmB.append x d).buffer) :=
+  appendG_ok p hW _ _ d hx
+
 /-! ### finalisation -/
 
 theorem rotHalf_ok (p : Profile) (count : Nat) (h : BitVec 32) (h1 : 1 ≤ count) (h2 : count < 32) :
